@@ -1,5 +1,6 @@
 import PortusModel.Driver.Wire
 import PortusModel.Props.C04
+import PortusModel.Props.C07
 /-! `ORC <id> Cnn <input> <observed…>`: evaluate the property oracle `Cnn.check` on behaviour observed
 from the implementation. Answers `PASS` or `FAIL`. -/
 namespace Portus.Driver
@@ -51,6 +52,63 @@ def orcC04 (args : List String) : String :=
   | h :: res => match fromHex h, parseDecResult res with
     | some b, some r => passFail (C04.check b r)
     | _, _ => "FAIL unparsable-observation"
+  | _ => "BADARG"
+
+/-- split a token list at a separator token -/
+def splitAt (sep : String) (toks : List String) : List (List String) :=
+  let rec go (ts : List String) (cur : List String) (acc : List (List String)) : List (List String) :=
+    match ts with
+    | [] => (cur.reverse :: acc).reverse
+    | t :: rest => if t = sep then go rest [] (cur.reverse :: acc) else go rest (t :: cur) acc
+  go toks [] []
+
+/-- a message given in the `ENC` argument syntax -/
+def parseMsgSpec (toks : List String) : Option Msg :=
+  match toks with
+  | ["CR", sid, cwnd, mss, sip, sport, dip, dport, alg] => do
+    let v ← [sid, cwnd, mss, sip, sport, dip, dport].mapM String.toNat?
+    let a ← parseAlg alg
+    match v with
+    | [sid, cwnd, mss, sip, sport, dip, dport] =>
+      some (.cr { sid, cwnd, mss, srcIp := sip, srcPort := sport, dstIp := dip, dstPort := dport, alg := a })
+    | _ => none
+  | ["MS", sid, uid, nf, fields] => do
+    some (.ms { sid := ← sid.toNat?, uid := ← uid.toNat?, numFields := ← nf.toNat?, fields := ← natList fields })
+  | ["RD", id] => do some (.rdy (← id.toNat?))
+  | _ => none
+
+def parseEncResult (toks : List String) : Option (Out Bytes) :=
+  match toks with
+  | ["OK", h] => (fromHex h).map .ok
+  | ["ERR"] => some .err
+  | ["PANIC"] => some .panic
+  | ["ABORT"] => some .panic
+  | _ => none
+
+/-- the `DECS` rendering: results separated by `|` -/
+def parseDecsResult (toks : List String) : Option (Out (List (Msg × Nat))) :=
+  if toks = ["EMPTY"] ∨ toks = [] then some (.ok []) else
+  let rec go (parts : List (List String)) (acc : List (Msg × Nat)) : Option (Out (List (Msg × Nat))) :=
+    match parts with
+    | [] => some (.ok acc.reverse)
+    | p :: rest =>
+      match parseDecResult p with
+      | some (.ok x) => go rest (x :: acc)
+      | some .err => some .err
+      | some .panic => some .panic
+      | none => none
+  go (splitAt "|" toks) []
+
+def orcC07 (args : List String) : String :=
+  match splitAt "@@" args with
+  | [spec, obs] =>
+    let obs := if obs = ["PANIC"] ∨ obs = ["ABORT"] then ["PANIC", "=>", "PANIC"] else obs
+    match splitAt "=>" obs with
+    | [e, d] =>
+      match (splitAt ";" spec).mapM parseMsgSpec, parseEncResult e, parseDecsResult d with
+      | some ms, some enc, some dec => passFail (C07.check ms enc dec)
+      | _, _, _ => "FAIL unparsable-observation"
+    | _ => "FAIL unparsable-observation"
   | _ => "BADARG"
 
 end Portus.Driver
